@@ -414,6 +414,14 @@ func (fr *Frame) doCallInner(cc *ssa.CallCommon, site ssa.Instruction, args []Te
 		return fr.callFunction(cl.fn, cl, sig, cc, site, args, names)
 	}
 	fr.nopanic("nil-func-call", "(not (= "+fr.val(cc.Value)+" null))", site.Pos())
+	if sc := fr.siteContract(); sc != nil && sc.Callees != nil {
+		if cb, ok := sc.Callees[fr.sourceName(cc.Value)]; ok {
+			if fcx, ok := c.P.Specs.Funcs["callback:"+cb]; ok {
+				return fr.applyContract(fcx, nil, sig, cc, site, args, names)
+			}
+			c.unsupported("callee directive refers to unknown callback " + cb)
+		}
+	}
 	if o, ok := fr.origin[cc.Value]; ok && strings.HasPrefix(o, "field:") {
 		if cb, ok := c.P.Specs.FuncFields[o[6:]]; ok {
 			if fcx, ok := c.P.Specs.Funcs["callback:"+cb]; ok {
